@@ -203,6 +203,8 @@ def laplacians(ctx, p):
         norm = ctx.flag("normalized")
         B, brd = xgi.adjacency_tensor(H, d, normalized=norm, index=True)
         Ed = [e for e in allE if len(e) == d + 1]
+        if N > 0 and not Ed:
+            ctx.require(np.shape(B) == (N,) * (d + 1) and not np.any(B), "adjacency tensor without edges of the requested order is not the zero tensor of shape (N,)*(d+1)")
         if N > 0 and Ed:
             bpos = inv_map(ctx, brd, nl, "adjacency_tensor")
             if bpos is not None:
